@@ -305,7 +305,6 @@ fn check_page(id: u8, w: u32, h: u32) -> Option<Cex> {
 }
 
 fn search_page(_rng: &mut Rng) -> Option<Cex> {
-    std::panic::set_hook(Box::new(|_| {}));
     let real = [(112u32, 16u32), (98, 16), (90, 7), (30, 10), (23, 10), (30, 7), (160, 16), (140, 16), (96, 8), (48, 16), (40, 12)];
     for &(w, h) in &real { if let Some(c) = check_page(3, w, h) { return Some(c); } }
     for w in 0..=29u32 { for h in 0..=33u32 { if let Some(c) = check_page((w * 7 + h) as u8, w, h) { return Some(c); } } }
@@ -499,19 +498,22 @@ fn main() {
     let cmd = args.get(1).map(|s| s.as_str()).unwrap_or("");
     let seed: u64 = args.get(3).and_then(|s| s.parse().ok()).unwrap_or(1) | 1;
     let mut rng = Rng(seed.wrapping_mul(0x9E3779B97F4A7C15) | 1);
-    std::panic::set_hook(Box::new(|_| {}));
+    if std::env::var("WITNESS_DEBUG").is_err() {
+        std::panic::set_hook(Box::new(|_| {}));
+    }
+    let scale: usize = std::env::var("WITNESS_SCALE").ok().and_then(|s| s.parse().ok()).unwrap_or(1);
     if cmd == "search" {
         let dom = args[2].as_str();
         let r = match dom {
-            "frame-encode" => search_encode(&mut rng, 3000),
-            "frame-decode" => search_decode(&mut rng, 20000),
+            "frame-encode" => search_encode(&mut rng, 3000 * scale),
+            "frame-decode" => search_decode(&mut rng, 20000 * scale),
             "page" => search_page(&mut rng),
             "message" => search_message(&mut rng),
             "signtype" => search_signtype(&mut rng),
-            "e2e" => search_e2e(&mut rng, 110000),
-            "stream" => io_domains::search_stream(&mut rng, 4000),
-            "serial" => io_domains::search_serial(&mut rng, 2),
-            "bridge" => io_domains::search_bridge(&mut rng, 40),
+            "e2e" => search_e2e(&mut rng, 110000 * scale),
+            "stream" => io_domains::search_stream(&mut rng, 4000 * scale),
+            "serial" => io_domains::search_serial(&mut rng, 2 * scale),
+            "bridge" => io_domains::search_bridge(&mut rng, 40 * scale),
             "serial-path" => io_domains::search_serial_path(&mut rng),
             _ => { eprintln!("unknown domain"); std::process::exit(2) }
         };
